@@ -7,7 +7,7 @@ from ..cfg import CFG
 from ..errors import AnalysisError
 from ..model import ClassInfo, FuncInfo, dotted, mangle, src, walk_scope
 from ..report import Context
-from ..util import assigned_value, calls_in, dep_leaves, expand_forms, is_self_attr, kwarg, normaliser, parse_expr, reaching_events, returns_of
+from ..util import path_forms, assigned_value, calls_in, dep_leaves, expand_forms, is_self_attr, kwarg, normaliser, parse_expr, reaching_events, returns_of
 from . import c08
 from .c08 import loss_classes, reachable_in_class
 
@@ -188,39 +188,48 @@ def r3_msm(ctx: Context) -> None:
             out.add(str(nn.rat(parse_expr(template.replace("E", E).replace("R", R)))))
         return out
 
-    g_forms = forms("R - np.mean(E, axis=0)")
-    ident = set()
-    for gf in ("R - np.mean(E, axis=0)",):
-        ident |= forms(f"({gf}).dot({gf})")
-    W_forms = forms("np.diag(1.0 / np.mean((R[None, :] - E) ** 2, axis=0))")
-    seen_identity = seen_w = False
+    # Path-sensitive reading: one form per acyclic path to each return (locals substituted forward along that path, so the two
+    # standardisation re-assignments stay correlated).  Every path must return g.g or g.W.g with g and W built from the SAME pair
+    # (E, R) - raw on the paths that skip standardisation, standardised on those that take it.
+    pairs = {"raw": (ens, rm), "standardised": (f"({ens} / abs({rm})[None, :])", f"({rm} / abs({rm}))")}
+    user_w = ["self._covariance_mat", "cast(NDArray[np.float64], self._covariance_mat)"]
+
+    def allowed(kind: str) -> dict[str, str]:
+        out = {}
+        for tag, (E, R) in pairs.items():
+            G = f"({R} - np.mean({E}, axis=0))"
+            if kind == "identity":
+                out[str(nn.rat(parse_expr(f"{G}.dot({G})")))] = tag
+            elif kind == "inverse":
+                W = f"np.diag(1.0 / np.mean(({R}[None, :] - {E}) ** 2, axis=0))"
+                out[str(nn.rat(parse_expr(f"{G}.dot({W}).dot({G})")))] = tag
+            else:
+                for W in user_w:
+                    out[str(nn.rat(parse_expr(f"{G}.dot({W}).dot({G})")))] = tag
+        return out
+
+    A_id, A_inv, A_user = allowed("identity"), allowed("inverse"), allowed("user")
+    seen = {"identity": set(), "inverse": set(), "user": set()}
+    n_paths = 0
     for r in rets:
         rn = g.nodes_of(r)[0]
-        vals = resolve(r.value, rn)
-        if any(v in ident for v in vals):
-            seen_identity = True
-            ctx.ok("R3.msm", "MethodOfMomentsLoss.compute_loss_1d:identity", "identity weighting returns g.g with g = m(real) - mean_e m(sim_e)")
-            continue
-        # g.W.g form: find the dot chain
-        ok_shape = False
-        for v in vals:
-            for gf in g_forms:
-                if v.startswith(f"dot(dot({gf},") and v.endswith(f",{gf})"):
-                    ok_shape = True
-        if ok_shape:
-            seen_w = True
-            ctx.ok("R3.msm", "MethodOfMomentsLoss.compute_loss_1d:quadratic-form", "weighted case returns g.W.g with the same g")
-        else:
-            ctx.fail("R3.msm", "MethodOfMomentsLoss.compute_loss_1d:return", f"MSM returns `{vals[0][:200]}`: neither g.g nor g.W.g with g = m(real) - mean_e m(sim_e)", f, r)
-    ctx.check(seen_identity and seen_w, "R3.msm", "MethodOfMomentsLoss.compute_loss_1d:branches", "both identity and weighted returns exist", "an MSM branch is missing", f, f.node)
-    # inverse-variance weights
-    inv = [s for s in walk_scope(f.node) if isinstance(s, ast.Assign) and isinstance(s.targets[0], ast.Name) and isinstance(s.value, ast.Call) and (dotted(s.value.func) or "").endswith("diag")]
-    ctx.floor("R3", "inverse-variance weight matrix definition", len(inv), 1)
-    for s in inv:
-        vals = resolve(s.value, g.nodes_of(s)[0])
-        ok = any(v in W_forms for v in vals)
-        ctx.check(ok, "R3.msm-inverse-variance", "MethodOfMomentsLoss.compute_loss_1d:W", "W = diag(1 / mean_e (m(real) - m(sim_e))^2) - the square is inside the ensemble mean",
-                  f"inverse-variance weights are `{vals[0][:220]}`", f, s)
+        for decisions, form in path_forms(f, g, r.value, rn):
+            n_paths += 1
+            v = str(nn.rat(form))
+            std_taken = any(d.startswith("self._standardise_moments=true") for d in decisions)
+            kind = "identity" if v in A_id else "inverse" if v in A_inv else "user" if v in A_user else None
+            if kind is None:
+                ctx.fail("R3.msm", "MethodOfMomentsLoss.compute_loss_1d:return", f"on the path [{'; '.join(decisions)}] MSM returns `{v[:260]}`: neither g.g nor g.W.g with g = m(real) - mean_e m(sim_e) "
+                         "and W built from the same (standardised or raw) moments as g", f, r, list(decisions))
+                continue
+            tag = {**A_id, **A_inv, **A_user}[v]
+            seen[kind].add(tag)
+            ctx.check((tag == "standardised") == std_taken, "R3.msm", f"MethodOfMomentsLoss.compute_loss_1d:{kind}:{tag}", f"{kind} weighting, {tag} moments on the path that "
+                      f"{'takes' if std_taken else 'skips'} standardisation", f"path [{'; '.join(decisions)}] returns the {tag} form although standardisation is {'on' if std_taken else 'off'}", f, r, list(decisions))
+    ctx.notes["msm_paths"] = n_paths
+    for kind in seen:
+        ctx.check(seen[kind] == {"raw", "standardised"}, "R3.msm", f"MethodOfMomentsLoss.compute_loss_1d:branches:{kind}", f"{kind} weighting is returned for raw and for standardised moments",
+                  f"MSM {kind}-weighting return reached for {sorted(seen[kind]) or 'no'} moments only", f, f.node)
     # branch selection by the option value
     tests = [t for t in g.live if t.kind == "test"]
     txt = " ".join(src(t.ast) for t in tests)
